@@ -71,6 +71,13 @@ func (r *ReduceMin) Apply(inputs []tensor.Tensor) ([]tensor.Tensor, error) {
 			newShape[axes] = 1
 		}
 
+		// Without axes all dimensions are reduced.
+		if len(axes) == 0 {
+			for i := range newShape {
+				newShape[i] = 1
+			}
+		}
+
 		err := out.Reshape(newShape...)
 		if err != nil {
 			return nil, err
